@@ -29,8 +29,11 @@ GRIDS_QUICK = [
     (dict(x=(0, 2), y=(0, 2)), 'all-care-hint', 70),
     (dict(x=(0, 3), y=(-2, 1)), 'random-care', 40),
     (dict(x=(-4, -1), y=(0, 1), z=(0, 1)), 'random-care', 30),
-    (dict(x=(0, 4), y=(0, 2)), 'hint-narrow', 60),
+    (dict(x=(0, 4), y=(0, 2)), 'hint-narrow', 70),
     (dict(x=(-3, 1)), 'hint-narrow', 40),
+    (dict(x=(0, 3), y=(1, 5)), 'hint-narrow', 56),
+    (dict(x=(-4, -2), y=(0, 1)), 'hint-narrow', 42),
+    (dict(x=(0, 1), y=(0, 1), z=(0, 1), w=(0, 1)), 'all-but-two', 0),
     (dict(x=(0, 1), y=(0, 1), z=(0, 1), w=(0, 2)), 'random-care', 24),
 ]
 GRIDS_THOROUGH = [
@@ -53,7 +56,7 @@ def families(tier, seed):
     for gi, (decl, mode, n) in enumerate(grids):
         for be in ('cudd',) + (('autoref',) if gi < 2 else ()):
             # split large families
-            parts = 1 if (n and n <= 80) or len(decl) <= 2 else 8
+            parts = 1 if (n and n <= 80 and mode != 'all-but-two') or len(decl) <= 2 else 8
             for part in range(parts):
                 out.append(dict(name=f'{WHAT} bounded {decl} {mode} n={n or "all"} [{be}] part {part}/{parts}',
                                 run=_part(decl, mode, seed, n, be, part, parts), label='bounded'))
@@ -74,4 +77,4 @@ def _part(decl, mode, seed, n, be, part, parts):
 
 
 def coverage_extra(results):
-    return dict(bounded_parameters=dict(instances='exhaustive: all subsets of the 2x2 and 2x2x2 hinted grids; sampled: 3x3 grid, 4x4 and mixed-sign grids with random care sets, hints narrower than the bit ranges with predicates outside the hints and predicates covering the care set, a 4-variable grid (VERIF_SEED)'))
+    return dict(bounded_parameters=dict(instances='exhaustive: all subsets of the 2x2 and 2x2x2 hinted grids; sampled: 3x3 grid, 4x4 and mixed-sign grids with random care sets, hints narrower than the bit ranges with predicates outside the hints and predicates covering the care set, a 4-variable grid, all 120 predicates missing exactly two points of the 2x2x2x2 grid (VERIF_SEED)'))
